@@ -462,4 +462,83 @@ mod verif_kani {
         }
         kani::cover!(a == b && b == c);
     }
+
+    // ---------------------------------------------------------------------------------------------------------
+    // The Verus unit `numcmp` reasons about int-vs-float comparison and float->int conversion over an ABSTRACT
+    // float model (uninterpreted nan / finite / sign / trunc_int / frac_sign with assumed facts).  The harnesses
+    // below check those assumed facts bit-precisely on the real std operations, with the model functions given
+    // their intended definitions (for |f| < 2^62, where `as i64` of the truncated value is exact).
+    // ---------------------------------------------------------------------------------------------------------
+    fn m_sign(f: f64) -> i32 {
+        if f > 0.0 { 1 } else if f < 0.0 { -1 } else { 0 }
+    }
+    fn m_in_range(f: f64) -> bool {
+        f > -4611686018427387904.0 && f < 4611686018427387904.0
+    }
+    fn m_trunc_int(f: f64) -> i64 {
+        f.trunc() as i64
+    }
+    fn m_frac_sign(f: f64) -> i32 {
+        m_sign(f - f.trunc())
+    }
+
+    /// axiom_float_model: `f > 0.0`, `compare_impl(0.0, x)`, infinities have a sign, finite implies not NaN,
+    /// `trunc` / `fract` keep NaN-ness and finiteness and agree with the model.
+    #[kani::proof]
+    fn c09_float_model_order_and_parts() {
+        let f: f64 = kani::any();
+        assert!((f > 0.0) == (!f.is_nan() && m_sign(f) > 0));
+        if !f.is_nan() {
+            let want = if m_sign(f) > 0 { Ordering::Less } else if m_sign(f) < 0 { Ordering::Greater } else { Ordering::Equal };
+            assert!(StarlarkFloat::compare_impl(0.0, f) == want);
+        }
+        if !f.is_nan() && !f.is_finite() {
+            assert!(m_sign(f) != 0);
+        }
+        if f.is_finite() {
+            assert!(!f.is_nan());
+        }
+        let t = f.trunc();
+        assert!(t.is_nan() == f.is_nan());
+        assert!(t.is_finite() == f.is_finite());
+        if f.is_finite() && m_in_range(f) {
+            assert!(m_trunc_int(t) == m_trunc_int(f));
+            let fr = f.fract();
+            assert!(!fr.is_nan());
+            assert!(m_sign(fr) == m_frac_sign(f));
+            // the integral part plus a fraction of the same sign: what exact_cmp_int_float relies on
+            assert!((m_trunc_int(f) as f64) == t);
+            assert!(fr > -1.0 && fr < 1.0);
+            assert!(!(f > 0.0) || fr >= 0.0);
+            assert!(!(f < 0.0) || fr <= 0.0);
+        }
+        kani::cover!(f.is_finite() && m_in_range(f) && f.fract() != 0.0 && f < 0.0);
+    }
+
+    /// axiom_float_conversions: `i32 as f64` and `i64 as f64` (|n| <= 2^53) are exact, every integer converts to an
+    /// integral finite double, and IEEE `==` holds only between two non-NaN values of the same real value.
+    #[kani::proof]
+    fn c10_float_model_conversions() {
+        let i: i32 = kani::any();
+        let d = i as f64;
+        assert!(d.is_finite() && m_trunc_int(d) == i as i64 && m_frac_sign(d) == 0);
+        let n: i64 = kani::any();
+        let e = n as f64;
+        assert!(e.is_finite() && e.fract() == 0.0);
+        if n >= -9007199254740992 && n <= 9007199254740992 {
+            assert!(m_trunc_int(e) == n);
+        }
+        let (a, b): (f64, f64) = (kani::any(), kani::any());
+        if a == b {
+            assert!(!a.is_nan() && !b.is_nan());
+            assert!(a.is_finite() == b.is_finite());
+            if a.is_finite() && m_in_range(a) {
+                assert!(m_trunc_int(a) == m_trunc_int(b) && m_frac_sign(a) == m_frac_sign(b));
+            }
+            if !a.is_finite() {
+                assert!(m_sign(a) == m_sign(b));
+            }
+        }
+        kani::cover!(a == b && a.to_bits() != b.to_bits());
+    }
 }
